@@ -191,7 +191,9 @@ inline vegas_pdf<T> vegas_refine_pdf(vegas_pdf<T> const& pdf, T alpha, std::vect
     std::size_t const dimensions = pdf.dimensions();
     std::size_t const bins       = pdf.bins();
 
-    vegas_pdf<T> new_pdf(dimensions, bins);
+    // start from the old pdf: a dimension for which `data` does not contain any information (see
+    // below) keeps its bins instead of being reset to a uniform distribution
+    vegas_pdf<T> new_pdf(pdf);
     std::vector<T> tmp(bins);
 
     for (std::size_t i = 0; i != dimensions; ++i)
